@@ -73,7 +73,7 @@ func registerC09Tools(c *Ctx, r registrar, count *Counter) {
 
 func runC09(c *Ctx) {
 	s, t := c.S, c.T
-	variant := []string{"stdio", "legacy-sse", "get-stream", "stdio-client-stdin"}[t.Draw(4)]
+	variant := []string{"stdio", "legacy-sse", "get-stream", "stdio-client-stdin", "get-resume"}[t.Draw(5)]
 	c.SetPlan("variant", variant)
 	s.Probe("c09.variant." + variant)
 	switch variant {
@@ -81,7 +81,103 @@ func runC09(c *Ctx) {
 		c09Lib(c, variant)
 	case "stdio-client-stdin":
 		c09ClientStdin(c)
+	case "get-resume":
+		c09GetResume(c)
 	}
+}
+
+// c09GetResume: a raw peer keeps reconnecting the listening stream of its session with a
+// Last-Event-ID header (stream resumption: the server writes a notice of its own on the new
+// stream) while server-side senders write notifications and requests to the same session.
+func c09GetResume(c *Ctx) {
+	s, t := c.S, c.T
+	const variant = "get-resume"
+	w := newWorld(c, "post-sse", "srv")
+	s.Net.Faults = sim.NetFaults{ShortRead: t.Pick(0, 20)}
+	sid, err := rawSession(c, "srv")
+	if err != nil {
+		s.Violate("C09|init-failed|"+variant, "raw handshake failed: %v", err)
+		return
+	}
+	open := func(k int, last string) *RawStream {
+		hdr := withSession(map[string]string{"Accept": "text/event-stream"}, sid)
+		if last != "" {
+			hdr["Last-Event-ID"] = last
+		}
+		rs, err := rawOpenStream(c, fmt.Sprintf("peer/get%d", k), "GET", "http://srv/mcp", hdr, nil)
+		if err != nil || rs.Status != 200 {
+			return nil
+		}
+		return rs
+	}
+	cur := open(0, "")
+	if cur == nil {
+		s.Violate("C09|init-failed|"+variant, "GET stream refused")
+		return
+	}
+	var tasks []*sim.Task
+	var sent []string
+	nSenders := 1 + t.Draw(3)
+	for k := 0; k < nSenders; k++ {
+		n := 2 + t.Draw(6)
+		tasks = append(tasks, s.Go(fmt.Sprintf("sender%d", k), func() {
+			for i := 0; i < n; i++ {
+				nonce := c.Nonce("s")
+				size := c09Sizes[c.T.Draw(len(c09Sizes))]
+				if err := w.Srv.SendNotification(sid, "notifications/verif", map[string]interface{}{"nonce": nonce, "pad": payload("p", size)}); err == nil {
+					c.mu.Lock()
+					sent = append(sent, nonce)
+					c.mu.Unlock()
+				}
+				s.Yield("sender#next")
+			}
+		}))
+	}
+	nReopen := 1 + t.Draw(4)
+	tasks = append(tasks, s.Go("reconnector", func() {
+		for k := 1; k <= nReopen; k++ {
+			for i := c.T.Draw(12); i > 0; i-- {
+				s.Yield("reconnector#wait")
+			}
+			next := open(k, fmt.Sprintf("evt-%d", k))
+			if next == nil {
+				continue
+			}
+			s.Probe("c09.resumed")
+			if c.T.Bool(50) {
+				cur.Close()
+			}
+			cur = next
+		}
+	}))
+	for _, a := range s.WaitTasks(20*time.Minute, tasks...) {
+		s.Violate("C09|stuck|"+variant, "task %s did not finish", a.Name)
+	}
+	s.Settle(50 * time.Millisecond)
+	frames, problems := httpFrames(c)
+	if len(problems) > 0 {
+		s.Violate("C09|frame-corrupt|"+variant, "%d framing problems on the wire, e.g. %s", len(problems), joinProblems(problems))
+	}
+	for _, e := range s.LibEvents() {
+		if strings.Contains(e, "http.ResponseWriter used after the handler returned") {
+			s.Violate("C09|write-after-handler-return|"+variant, "%s", e)
+		}
+		if strings.Contains(e, "concurrent use of http.ResponseWriter") {
+			s.Violate("C09|concurrent-writer-use|"+variant, "two writers were inside Write/Flush of one stream at once (frames tear in a real net/http server): %s", e)
+		}
+	}
+	for _, nonce := range sent {
+		n := 0
+		for _, f := range frames {
+			if strings.Contains(string(f.Raw), "\"nonce\":\""+nonce+"\"") {
+				n++
+			}
+		}
+		if n != 1 {
+			s.Violate("C09|frame-count|"+variant, "notification %s was sent successfully once but appears in %d frames on the wire", nonce, n)
+		}
+	}
+	cur.Close()
 }
 
 func c09Lib(c *Ctx, variant string) {
